@@ -1,5 +1,13 @@
 import Geo.Props.C18
+import Geo.Props.C18b
 #print axioms Geo.T18_common_point_is_meet
 #print axioms Geo.T18_meet_on_both
 #print axioms Geo.T18_parallel_meet_at_infinity
 #print axioms Geo.T18_collinear_gives_zero
+#print axioms Geo.segContains_smul
+#print axioms Geo.cross_cross
+#print axioms Geo.meet_on_first
+#print axioms Geo.T18_parallel_none
+#print axioms Geo.segContains_finite
+#print axioms Geo.T18_segIntersect_sound
+#print axioms Geo.T18_segIntersect_complete
